@@ -39,8 +39,8 @@ _codes = {}
 LIMITS = oracle.Limits()
 
 
-def code_for(me, ret, fresh=False):
-    key = (me, ret, fresh)
+def code_for(me, ret, fresh=False, ns_child=False):
+    key = (me, ret, fresh, ns_child)
     if key not in _codes:
         src = {(False, False): SRC, (True, False): SRC_ME, (False, True): SRC_RET, (True, True): SRC_ME_RET}[key[:2]]
         if fresh:
@@ -50,6 +50,11 @@ def code_for(me, ret, fresh=False):
             src = src.replace("    HIT()\n", "    t1 = [[a, 1], [b, 2], BIG + 7]\n    t2 = {'k': [a]}\n    HIT()\n"
                                             "    t1.clear(); t2.clear()\n")
             src = src.replace("return DONE(d)", "return DONE(%s)" % {'list': '[a, b]', 'bigint': 'BIG + 3'}[fresh])
+        if ns_child:
+            # the module's namespace (the locals of the module frame) is only referred to one level down, as an element
+            # of a local - not by a frame variable itself
+            src = src.replace("inner(x, y, z, globals())", "inner(x, y, z, [globals()])")
+            assert '[globals()]' in src
         _codes[key] = compile(src, PATH, 'exec')
     return _codes[key]
 # BIG + k: a fresh object of an uncommon size - once dropped, the next object of that size takes over its address
@@ -204,6 +209,7 @@ class C07(Prop):
                                  ['NEST.v[0]', 'NEST.v[0][0]'], ['NEST.v', 'a', 'NEST.v[9]']]),
                 st.sampled_from([60, 150, 200, 230, 260, 300, 350, 420, 500])).map(list)),
             'me': st.booleans(),
+            'ns_child': st.sampled_from([False, False, True]),
             'capture': st.booleans(),
             # the paused frame is the outermost one (nothing below it) and holds its own locals() in a local
             'outermost': st.sampled_from([False, False, False, True]),
@@ -251,6 +257,8 @@ class C07(Prop):
         capture = bool(recipe.get('capture'))
         if me:
             out.cls('frame_holds_its_own_locals')
+        if recipe.get('ns_child'):
+            out.cls('namespace_only_as_child')
         if capture:
             out.cls('deferred_capture')
         for i, a in enumerate(recipe['actions']):
@@ -303,7 +311,7 @@ class C07(Prop):
 
         ns = {'NEST': Holder([[[i, j, 'x%d' % j] for j in range(10)] for i in range(10)]), 'BIG': 1 << 3000, 'V': vals, 'I0': i0, 'I1': i1, 'I2': i2, 'HIT': HIT, 'DONE': DONE, '__name__': 'c07_mod'}
         import threading
-        t = threading.Thread(target=exec, args=(code_for(me, capture, recipe.get('ret_fresh') or False), ns), name='c07-prog')   # small, engine-free stack below
+        t = threading.Thread(target=exec, args=(code_for(me, capture, recipe.get('ret_fresh') or False, bool(recipe.get('ns_child'))), ns), name='c07-prog')   # small, engine-free stack below
         t.start()
         t.join()
         if not readings:
